@@ -122,10 +122,23 @@ func c08Inputs(rng *lab.Rand, base []byte, heavy bool, f func(kind string, b []b
 				orig = orig<<8 | uint64(base[off+k])
 			}
 			max := uint64(1)<<(8*uint(w)) - 1
-			for _, v := range []uint64{0, 1, 2, 3, max, max >> 1, (orig + 1) & max, (orig - 1) & max} {
-				if v == orig {
+			vals := []uint64{0, 1, 2, 3, max, max >> 1, (orig + 1) & max, (orig - 1) & max}
+			if w >= 2 {
+				// values taken from the frame's own geometry: the total length and what remains after this field, a few bytes more
+				// or less (a length field that is consistent with every limit but one, e.g. "message length + 1..4")
+				for d := uint64(0); d <= 8; d++ {
+					vals = append(vals, (uint64(n)-d)&max, (uint64(n-off-w)+4-d)&max)
+				}
+				for d := uint64(1); d <= 4; d++ {
+					vals = append(vals, (uint64(n)+d)&max)
+				}
+			}
+			seen := map[uint64]bool{}
+			for _, v := range vals {
+				if v == orig || seen[v] {
 					continue
 				}
+				seen[v] = true
 				b := append([]byte(nil), base...)
 				for k := 0; k < w; k++ {
 					b[off+k] = byte(v >> (8 * uint(w-1-k)))
